@@ -356,14 +356,53 @@ fn log_op_call(ctx: &mut Ctx, r: &mut Rng, op: &OpDef, mode: SizeMode, case: u64
     let args = gen_args(r, &mut f, op, mode);
     let flags = flags_for_ops(r);
     let budget = if mode == SizeMode::Big { 12_000_000_000 } else { u64::MAX };
-    let Some(c) = call(&f, op, args, flags, budget, r.u64(), if r.chance(1, 3) { 8 } else { 0 }) else { return };
+    let repeat = r.chance(1, 4);
+    crate::mon::ops::REPEAT_IN_SAME_ALLOCATOR.with(|x| x.set(repeat));
+    let c = call(&f, op, args, flags, budget, r.u64(), if r.chance(1, 3) { 8 } else { 0 });
+    crate::mon::ops::REPEAT_IN_SAME_ALLOCATOR.with(|x| x.set(false));
+    let Some(c) = c else { return };
     ctx.eval();
     ctx.count(&format!("{}_{}", op.name, if c.out.res.is_ok() { "ok" } else { "err" }));
+    if repeat {
+        ctx.count("second_call_in_same_allocator");
+    }
     if c.out.res.is_ok() && c.result.is_none() {
         return; // result too large to log
     }
-    let rec = call_record(&f, op, args, flags, budget, &c, case);
+    let mut rec = call_record(&f, op, args, flags, budget, &c, case);
+    rec["second_call_in_same_allocator"] = json!(repeat);
+    add_aux(&f, op, args, flags, &mut rec);
     ctx.log_line(&rec);
+}
+
+fn add_aux(f: &Forest, op: &OpDef, args: Id, flags: ClvmFlags, rec: &mut Value) {
+    let (items, tail) = crate::mon::ops::flat_args(f, args);
+    let proper = f.atom_bytes(tail) == Some(&[][..]);
+    if op.name == "bls_verify" && proper && items.len() >= 3 && items.iter().all(|i| f.is_atom(*i)) {
+        // auxiliary observations for the python oracle: the operator's own hash-to-curve of pk||msg
+        let g2map = op_by_name("g2_map");
+        let mut aux = Vec::new();
+        for k in 0..(items.len() - 1) / 2 {
+            let mut m = f.atom_bytes(items[1 + 2 * k]).unwrap().to_vec();
+            m.extend_from_slice(f.atom_bytes(items[2 + 2 * k]).unwrap());
+            let mut g = Forest::new();
+            let a = g.atom(&m);
+            let l = g.list(&[a]);
+            let h = call(&g, &g2map, l, ClvmFlags::empty(), u64::MAX, 0, 0).and_then(|c| c.result).map(|b| hex::encode(&b[b.len().saturating_sub(96)..]));
+            aux.push(h);
+        }
+        rec["aux_g2_map_of_pk_msg"] = json!(aux);
+    }
+    if (op.name == "g1_map" || op.name == "g2_map") && proper && items.len() == 1 && f.is_atom(items[0]) {
+        // the same call with the default DST spelled out must give the same point
+        let dst: &[u8] = if op.name == "g1_map" { b"BLS_SIG_BLS12381G1_XMD:SHA-256_SSWU_RO_AUG_" } else { b"BLS_SIG_BLS12381G2_XMD:SHA-256_SSWU_RO_AUG_" };
+        let mut g = Forest::new();
+        let m = g.atom(f.atom_bytes(items[0]).unwrap());
+        let d = g.atom(dst);
+        let l = g.list(&[m, d]);
+        let twin = call(&g, op, l, flags, u64::MAX, 0, 0).and_then(|c| c.result).map(hex::encode);
+        rec["explicit_default_dst_result"] = json!(twin);
+    }
 }
 
 pub fn run_c10(ctx: &mut Ctx) {
@@ -424,7 +463,7 @@ const CRYPTO_OPS: &[&str] = &[
 
 pub fn run_c32(ctx: &mut Ctx) {
     let ops: Vec<OpDef> = CRYPTO_OPS.iter().map(|n| op_by_name(n)).collect();
-    let n = ctx.n(60_000, 3_000_000);
+    let n = ctx.n(24_000, 2_000_000);
     random_cases!(ctx, n, |r, i| {
         let op = r.pick(&ops);
         // pairings are expensive for the pure-python oracle: keep them rare
@@ -476,7 +515,8 @@ pub fn run_c32(ctx: &mut Ctx) {
         let Some(c) = call(&g, &op, args, flags, u64::MAX, r.u64(), 0) else { continue };
         ctx.eval();
         ctx.count(if c.out.res.is_ok() { "constructed_bls_verify_ok" } else { "constructed_bls_verify_err" });
-        let rec = call_record(&g, &op, args, flags, u64::MAX, &c, i);
+        let mut rec = call_record(&g, &op, args, flags, u64::MAX, &c, i);
+        add_aux(&g, &op, args, flags, &mut rec);
         ctx.log_line(&rec);
     });
 }
